@@ -191,14 +191,35 @@ def run(chk, args):
     for di, (multi, pre) in enumerate([(False, 0), (False, 4), (True, 0), (True, 4)]):
         for (rt, au) in (modes or [(False, False) if di in (0, 3) else rm[(seed + di) % 3]]):
             directed.append(dict(multi=multi, F=4 if multi else 64, W=8, mo=1, retry=rt, auto=au, pre=pre))
-    for k in directed:
-        scr = scripts_pre if k["pre"] else scripts_rewind
+    directed = [(k, scripts_pre if k["pre"] else scripts_rewind) for k in directed]
+
+    # retryable sync keeps flushed-but-unsynced bytes in the write buffer: Append a; Flush (no Sync); Append b; SetOffset(off) for
+    # every off from the flushed offset to the current offset (both included) and below the flushed offset; Append c; Flush;
+    # Sync; read everything back; re-open; read back.  Size/Offset are compared after every step.  Buffer sizes: everything
+    # fits / a+b overflows (auto-sync frees the buffer in between) / every append overflows.
+    def tail_scripts(a, b, c):
+        out = []
+        for off in sorted(set([0, max(a - 1, 0)] + list(range(a, a + b + 1)))):
+            n = off + c
+            out.append([("append", a, 0), ("flush", 0, 0), ("append", b, 0), ("setoffset", off, 0), ("append", c, 0), ("flush", 0, 0),
+                        ("sync", 0, 0), ("read", 0, n), ("reopen", 0, 0), ("read", 0, n)])
+        return out
+    tails = tail_scripts(3, 3, 2) + tail_scripts(2, 4, 1)
+    TT, TF = (True, True), (True, False)
+    tail_cfgs = [(False, 64, 8, TT), (False, 64, 8, TF), (False, 64, (4, 2, 5)[seed % 3], TT), (True, 16, 9, TF)]
+    if thorough:
+        tail_cfgs += [(False, 64, w, TT) for w in (2, 3, 4, 5, 12)] + [(False, 64, 12, TF), (True, 16, 8, TT), (True, 4, 8, TT),
+                                                                       (True, 4, 3, TT), (False, 64, 8, (False, False))]
+    for (multi, F, W, (rt, au)) in dict.fromkeys(tail_cfgs):
+        directed.append((dict(multi=multi, F=F, W=W, mo=1, retry=rt, auto=au, pre=0), tails))
+
+    for k, scr in directed:
         text = mk(multi=k["multi"], F=k["F"], W=k["W"], mo=k["mo"], retry=k["retry"], auto=k["auto"], pre=k["pre"], mb=16, ma=6,
                   mops=len(scr[0]), mc=5 if k["multi"] else 0, code=code, emit=len(scr[0]), inv="TypeOK Emit", view="")
         text = text.replace("SPECIFICATION Spec", "CONSTANT Scripts <- ScriptsV\nSPECIFICATION ScriptSpec")
         root = ("---- MODULE C17Scripts ----\nEXTENDS AppendableScript\nScriptsV == {%s}\n====\n"
                 % ", ".join("<<%s>>" % ", ".join('<<"%s", %d, %d>>' % e for e in sc) for sc in scr))
-        jobs.append(("script", cfg_name(k), text, [], 1, dict(k, root=root, n=len(scr))))
+        jobs.append(("script", cfg_name(k) + (" tail-rewinds" if scr is tails else ""), text, [], 1, dict(k, root=root, n=len(scr))))
 
     def tlc_job(j):
         kind, name, text, extra, workers, meta = j
@@ -330,6 +351,11 @@ def run(chk, args):
     for need in ("op:append", "op:read", "op:setoffset", "op:flush", "op:sync", "op:discard", "op:switchro", "op:reopen", "op:copy", "reads"):
         if not ctr.get(need):
             raise MachineryFault("replay never executed %s (vacuous)" % need)
+
+    tail = "setoffset:into-unflushed-tail-with-flushed-unsynced-buffered:"
+    chk.cov["setoffset_into_tail_with_flushed_held"] = {"directed": ctr.get(tail + "tlc-directed", 0), "simulated": ctr.get(tail + "tlc-simulate", 0)}
+    if not ctr.get(tail + "tlc-directed"):
+        raise MachineryFault("no directed behaviour drove SetOffset into the unflushed tail while flushed-unsynced bytes were buffered (vacuous)")
 
     # ---- 3. trace validation of concurrent readers ---------------------------------------------------------------------
     tv_ok = run_tv(chk, binp, wd, seed, runs=24 if thorough else 8, ops=80 if thorough else 50, corrupt=False)
